@@ -67,14 +67,16 @@ func (svr *Server) handshakeControlChannel(wsc websocket.Conn) {
 		buf.Reset()
 		defer buffers.Put(buf)
 		req.ResponseOK(buf, map[string]string{FieldChannel: channelID}, "")
+		// 先登记会话再应答：客户端收到通道号后立即发起的 JOIN 必须能找到它
+		session := newSession(svr, wsc, channelID)
+		svr.sessions.Store(channelID, session)
 		_, err = wsc.Write(buf.Bytes())
 		if err != nil {
 			svr.logger.Error(err.Error())
+			svr.sessions.Delete(channelID)
 			wsc.Close()
 			break
 		}
-		session := newSession(svr, wsc, channelID)
-		svr.sessions.Store(channelID, session)
 		svr.logger.Debugf("wsp ===>>> \r\n%s", buf.String())
 		go session.process()
 		break
